@@ -8,6 +8,7 @@ import LogicaModel.SemJson
 import LogicaModel.CQ
 import LogicaModel.TypeSolve
 import LogicaModel.Format
+import LogicaModel.Scan
 /-! Request handlers of the line-protocol driver (executable definitions of the models only). -/
 open Lean
 
@@ -282,6 +283,22 @@ def handleFormat (op : String) (j : Json) : Except String Json := do
                      ("balanced", match r with | some o => Json.bool (bal o) | none => Json.null),
                      ("args_balanced", Json.bool (as.all bal))]
 
+/-! ### Scan: the scanner of both parsers -/
+def rcJson : Scan.RC → Json
+  | .ok s => Json.mkObj [("ok", Json.str (String.ofList s))]
+  | .eolInString i => Json.mkObj [("error", "EOL in string"), ("idx", Json.num (Int.ofNat i))]
+  | .unmatched i => Json.mkObj [("error", "Unmatched"), ("idx", Json.num (Int.ofNat i))]
+
+def handleScan (j : Json) : Except String Json := do
+  let t ← str j "text"
+  let cs := t.toList
+  let evs := (Scan.Py.traverse cs).map fun
+    | .ok i _ st => Json.arr #[Json.num (Int.ofNat i), Json.str (String.ofList st.reverse), "OK"]
+    | .eol i => Json.arr #[Json.num (Int.ofNat i), Json.null, "EOL in string"]
+    | .unmatched i => Json.arr #[Json.num (Int.ofNat i), Json.null, "Unmatched"]
+  return Json.mkObj [("py", Json.arr evs.toArray), ("py_rc", rcJson (Scan.Py.removeComments cs)),
+                     ("cpp_rc", rcJson (Scan.Cpp.removeComments cs))]
+
 def handle (j : Json) : Except String Json := do
   let op ← str j "op"
   if ["strlit", "lex", "useflags", "buildflags"].contains op then handleEscape op j
@@ -292,6 +309,7 @@ def handle (j : Json) : Except String Json := do
   else if op == "denote" then Sem.handleDenote j
   else if op == "cq" then handleCQ j
   else if op == "tysolve" then handleTySolve j
+  else if op == "scan" then handleScan j
   else if ["fmt_function", "fmt_infix"].contains op then handleFormat op j
   else throw ("unknown op " ++ op)
 
